@@ -383,6 +383,66 @@ def run_input(ctx, i):
                 ctx.case(case["m"], case["k"], case["d"], tagf, subset, "dicts", nontrivial=True,
                          cls=["formalism:" + tagf] + ["dict_slot:" + k for k in subset],
                          sample=lambda: {"objects": desc, "formalism": tagf, "dictionary_slots": list(subset)})
+    # mappers built through the public pipeline (mesh.mapper_grids_from with a border relocator) for TWO source planes, with the
+    # Preloads filled by the library's grid / mapper producers from two earlier identical fits: same outputs as without preloads
+    if i % 4 == 1 and not only_functions:
+        mask_ = case["mask"]
+        osamp_ = ds.grids.pixelization.over_sampler
+        g_ = np.array(_np(osamp_.over_sampled_grid), dtype=float)
+        planes = []
+        for pl in range(2):
+            src_, _dk = gen_aa.distort(rng, g_)
+            src_ = src_ * float(rng.uniform(0.6, 1.6)) + rng.normal(size=2) * 0.3
+            planes.append((aa.mesh.Rectangular(shape=(int(rng.integers(3, 5)), int(rng.integers(3, 5)))), src_))
+        try:
+            br_ = aa.BorderRelocator(mask=mask_, sub_size=aa.Array2D(values=np.asarray(_np(osamp_.sub_size)).astype(int), mask=mask_) if np.ndim(_np(osamp_.sub_size)) else int(osamp_.sub_size))
+        except Exception:
+            br_ = None
+        regs_ = [aa.reg.Constant(coefficient=float(rng.uniform(0.3, 2.0))) for _ in planes]
+
+        def pipeline(pre_, use_w_):
+            st_ = aa.SettingsInversion(use_w_tilde=use_w_, use_positive_only_solver=False, no_regularization_add_to_curvature_diag_value=1e-3)
+            mps = []
+            for (mesh_, src_), rg in zip(planes, regs_):
+                kw = {} if pre_ is None else {"preloads": pre_}
+                mg_ = mesh_.mapper_grids_from(mask=mask_, source_plane_data_grid=aa.Grid2DIrregular(values=src_.copy()), border_relocator=br_, **kw)
+                mps.append(aa.Mapper(mapper_grids=mg_, over_sampler=osamp_, regularization=rg))
+            kw = {} if pre_ is None else {"preloads": pre_}
+            return aa.Inversion(dataset=twin(), linear_obj_list=mps, settings=st_, **kw)
+
+        class FitLike2:
+            def __init__(self, inv_):
+                self.inversion = inv_
+        if br_ is not None:
+            for use_w in (False, True):
+                tagf = "w_tilde" if use_w else "mapping"
+                if not ctx.begin("inp:%d:%s:pipeline_two_planes" % (i, tagf)):
+                    continue
+                try:
+                    refp = outputs(aa, pipeline(None, use_w))
+                    pre_ = aa.Preloads()
+                    f0_, f1_ = FitLike2(pipeline(None, use_w)), FitLike2(pipeline(None, use_w))
+                    for prod in ("set_relocated_grid", "set_mapper_list"):
+                        try:
+                            getattr(pre_, prod)(f0_, f1_)
+                        except Exception as e:
+                            ctx.skipped["pipeline_producer_raised:%s:%s" % (prod, type(e).__name__)] += 1
+                    q = outputs(aa, pipeline(pre_, use_w))
+                except aa.exc.InversionException:
+                    ctx.skipped["pipeline:InversionException"] += 1
+                    continue
+                except Exception as e:
+                    ctx.check(False, "preload.transparent", how="pipeline with library-filled grid preloads", exception=repr(e)[:300], formalism=tagf, **W0)
+                    continue
+                regi = np.arange(len(refp["s"]))
+                A_ = refp["F"] + refp["H"]
+                tolc = 1e-9 * abs(refp["logdet_c"]) + 1e-14 * len(regi) * float(np.linalg.cond(A_)) + 1e-12
+                tolh = 1e-9 * abs(refp["logdet_h"]) + 1e-14 * len(regi) * float(np.linalg.cond(refp["H"])) + 1e-12
+                bad = same(ctx, q, refp, tolc, tolh, False)
+                filled = sorted(k for k, v in vars(pre_).items() if v is not None and v is not False and not (isinstance(v, (list, dict)) and not v))
+                ctx.check(not bad, "preload.transparent", how="two source planes through mesh.mapper_grids_from, Preloads filled by set_relocated_grid / set_mapper_list",
+                          differing=bad, slots_filled=filled, formalism=tagf, **W0)
+                ctx.case(case["m"], case["k"], tagf, "pipeline", nontrivial=True, cls=["formalism:" + tagf, "pipeline_two_source_planes"], sample=None)
     # the factory's choice changes only performance: values equal across formalisms, and preloads.use_w_tilde selects the same classes
     if len(per_formalism) == 2 and ctx.begin("inp:%d:formalisms" % i):
         a, b = per_formalism["mapping"], per_formalism["w_tilde"]
